@@ -209,7 +209,8 @@ addbody(struct http_cookie * H, uint8_t * buf, size_t buflen)
 	}
 
 	/* Copy the data into our (possibly expanded) buffer. */
-	memcpy(&H->res.body[H->res.bodylen], buf, buflen);
+	if (buflen > 0)
+		memcpy(&H->res.body[H->res.bodylen], buf, buflen);
 
 	/* Record the increased data length. */
 	H->res.bodylen += buflen;
